@@ -33,7 +33,11 @@ EXTENDS Naturals, Sequences, FiniteSets, TLC, SequencesExt, FiniteSetsExt
 
 CONSTANTS MaxMods, MaxDecls,
           Dirs,         \* set of directory sequences modules may live in, e.g. {<<>>}
-          ImportPositions \* TRUE: the import lines of a module stand at every position among its declarations
+          ImportPositions, \* TRUE: the import lines of a module stand at every position among its declarations
+          ImportTwice,  \* TRUE: additionally every program with all its import lines written twice
+          Restricted    \* TRUE (more modules): every module has exactly MaxDecls declarations, at most one declaration
+                        \* of the program is private, no self-imports, and only the splice order of the code (pairs in
+                        \* ascending order) is followed
 
 VARIABLES mods,         \* the program as parsed: sequence of [dir, name, imports, decls]
           cur,          \* the current declaration sequence of every module (expand works in place)
@@ -41,9 +45,12 @@ VARIABLES mods,         \* the program as parsed: sequence of [dir, name, import
           phase
 vars == <<mods, cur, todo, phase>>
 
-Kinds == <<"fn", "const", "struct">>
-KindOf(i, j) == Kinds[((i + j) % 3) + 1]
-Letter(k) == CASE k = "fn" -> "f" [] k = "const" -> "c" [] k = "struct" -> "s"
+\* "head" is a function declared without a body (`pub fn h();`): exported like a function, its k is "fn".
+\* Every other declaration is additionally marked `extern` (ext), which import leaves alone (only `pub` is cleared).
+Kinds == <<"fn", "const", "struct", "head">>
+KindOf(i, j) == Kinds[((i + j) % 4) + 1]
+ExtOf(i, j) == (i + 2 * j) % 2 = 1
+Letter(k) == CASE k = "fn" -> "f" [] k = "const" -> "c" [] k = "struct" -> "s" [] k = "head" -> "h"
 Digit(x) == CASE x = 0 -> "0" [] x = 1 -> "1" [] x = 2 -> "2" [] x = 3 -> "3" [] x = 4 -> "4" [] x = 5 -> "5"
               [] x = 6 -> "6" [] x = 7 -> "7" [] x = 8 -> "8" [] x = 9 -> "9"
 NameOf(i, j) == Letter(KindOf(i, j)) \o Digit(i) \o Digit(j)
@@ -90,23 +97,30 @@ PairLess(p, q) == p[1] < q[1] \/ (p[1] = q[1] /\ p[2] < q[2])
 (* Gen                                                                     *)
 (***************************************************************************)
 FlagSeqs == UNION { [1..d -> BOOLEAN] : d \in 0..MaxDecls }
-DeclsOf(i, flags) == [j \in 1..Len(flags) |-> [n |-> NameOf(i, j), k |-> KindOf(i, j), pub |-> flags[j], body |-> TRUE]]
+DeclsOf(i, flags) == [j \in 1..Len(flags) |->
+                        [n |-> NameOf(i, j), k |-> IF KindOf(i, j) = "head" THEN "fn" ELSE KindOf(i, j), pub |-> flags[j],
+                         body |-> KindOf(i, j) # "head", ext |-> ExtOf(i, j)]]
 
 Init == /\ mods = <<>> /\ cur = <<>> /\ todo = {} /\ phase = "modules"
 
 AddModule == /\ phase = "modules" /\ Len(mods) < MaxMods
              /\ \E flags \in FlagSeqs, d \in Dirs :
                 \E ip \in (IF ImportPositions THEN 0..Len(flags) ELSE {0}) :
-                   mods' = Append(mods, [dir |-> d, name |-> FileName(Len(mods) + 1), imports |-> <<>>,
+                   /\ (Restricted => Len(flags) = MaxDecls)
+                   /\ mods' = Append(mods, [dir |-> d, name |-> FileName(Len(mods) + 1), imports |-> <<>>,
                                         decls |-> DeclsOf(Len(mods) + 1, flags), ipos |-> ip])
              /\ UNCHANGED <<cur, todo, phase>>
 \* every module imports a subset of the modules (by exact path), in ascending order
+Privates(ms) == Cardinality({ <<i, x>> \in (1..Len(ms)) \X (1..MaxDecls) : x <= Len(ms[i].decls) /\ ~ms[i].decls[x].pub })
 ChooseImports == /\ phase = "modules" /\ Len(mods) >= 1
-                 /\ \E rel \in SUBSET ((1..Len(mods)) \X (1..Len(mods))) :
+                 /\ Restricted => (Len(mods) = MaxMods /\ Privates(mods) <= 1)
+                 /\ \E rel \in SUBSET { p \in (1..Len(mods)) \X (1..Len(mods)) : ~Restricted \/ p[1] # p[2] } :
+                    \E twice \in (IF ImportTwice /\ rel # {} THEN BOOLEAN ELSE {FALSE}) :
                        mods' = [i \in 1..Len(mods) |->
                                   [mods[i] EXCEPT !.imports =
                                       LET js == SetToSortSeq({ p[2] : p \in { q \in rel : q[1] = i } }, <)
-                                      IN [x \in 1..Len(js) |-> PathOf(mods, js[x])]]]
+                                          ps == [x \in 1..Len(js) |-> PathOf(mods, js[x])]
+                                      IN IF twice THEN ps \o ps ELSE ps]]
                  /\ phase' = "collect"
                  /\ UNCHANGED <<cur, todo>>
 \* expand, first loop: resolve the imports into a set of pairs, drop the self-imports
@@ -117,7 +131,7 @@ Collect == /\ phase = "collect"
            /\ UNCHANGED mods
 \* expand, second loop: any remaining pair
 Splice == /\ phase = "splice" /\ todo # {}
-          /\ \E p \in todo :
+          /\ \E p \in (IF Restricted THEN { q \in todo : \A r \in todo : r = q \/ PairLess(q, r) } ELSE todo) :
                 /\ cur' = SpliceInto(cur, p[1], p[2])
                 /\ todo' = todo \ {p}
           /\ UNCHANGED <<mods, phase>>
